@@ -390,7 +390,7 @@ func numericArrayToken(kind string, v reflect.Value) string {
 			data = append(data, byte(bits>>(8*uint(b))))
 		}
 	}
-	return fmt.Sprintf("A:%s:%d:%s", at, n, hex.EncodeToString(data))
+	return arrayToken(at, at, n, data)
 }
 
 func leafToken(kind string, v reflect.Value) string {
@@ -398,15 +398,9 @@ func leafToken(kind string, v reflect.Value) string {
 	case "bool":
 		return fmt.Sprintf("B:%v", v.Bool())
 	case "int8", "int16", "int32", "int64", "int":
-		if v.Int() == 0 {
-			return "Z:+"
-		}
-		return fmt.Sprintf("I:%d", v.Int())
+		return ratToken(new(big.Rat).SetInt64(v.Int()))
 	case "uint8", "uint16", "uint32", "uint64", "uint":
-		if v.Uint() == 0 {
-			return "Z:+"
-		}
-		return fmt.Sprintf("I:%d", v.Uint())
+		return ratToken(new(big.Rat).SetInt(new(big.Int).SetUint64(v.Uint())))
 	case "float32", "float64":
 		return normF64(v.Float())
 	case "string":
@@ -426,10 +420,7 @@ func leafToken(kind string, v reflect.Value) string {
 		} else {
 			bi = v.Interface().(*big.Int)
 		}
-		if bi.Sign() == 0 {
-			return "Z:+"
-		}
-		return "I:" + bi.String()
+		return ratToken(new(big.Rat).SetInt(bi))
 	case "bigfloat":
 		x := v.Interface().(big.Float)
 		f, _ := x.Float64()
@@ -452,10 +443,7 @@ func leafToken(kind string, v reflect.Value) string {
 		return fmt.Sprintf("A:media(%s):%d:%s", x.MediaType, len(x.Data), hex.EncodeToString(x.Data))
 	case "iface":
 		i := reflect.ValueOf(v.Interface())
-		if i.Int() == 0 {
-			return "Z:+"
-		}
-		return fmt.Sprintf("I:%d", i.Int())
+		return ratToken(new(big.Rat).SetInt64(i.Int()))
 	}
 	return "?" + kind
 }
